@@ -116,6 +116,13 @@ pub fn l3_case(delta: u64, seed: u64, l: &mut Local) {
     let t1 = w.now();
     let mut m1 = Message::response();
     m1.answers.push(wire::a(&owner, 120, [10, 0, 0, 61]));
+    // the host's address of the other family, learned at the same time on the same interface: records of
+    // another type are none of a cache-flush record's business
+    let other_family = rng.chance(1, 2);
+    let v6addr: [u8; 16] = "fd00::61".parse::<std::net::Ipv6Addr>().unwrap().octets();
+    if other_family {
+        m1.answers.push(wire::aaaa(&owner, 120, v6addr));
+    }
     w.inject_msg(h, 2, scen::peer4(61), &m1);
     w.run_until(t1 + delta);
     // the flushing record: other address, same interface or (two interfaces) the other one
@@ -134,7 +141,7 @@ pub fn l3_case(delta: u64, seed: u64, l: &mut Local) {
     let t2 = w.now();
     w.run_until(t2 + 5000);
     l.evaluations += 1;
-    l.distinct.insert(util::fnv_str(&format!("L3|{delta}|{two_if}|{other_if}|{same_burst_extra}")));
+    l.distinct.insert(util::fnv_str(&format!("L3|{delta}|{two_if}|{other_if}|{same_burst_extra}|{other_family}")));
     let Some(chan) = chan else { return };
     let removed: Vec<(u64, IpAddr)> = w
         .trace
@@ -146,7 +153,7 @@ pub fn l3_case(delta: u64, seed: u64, l: &mut Local) {
         .flatten()
         .collect();
     let first: IpAddr = IpAddr::from([10, 0, 0, 61]);
-    let wit = || json!({"delta_ms": delta, "two_interfaces": two_if, "flusher_on_other_interface": other_if, "trace": w.trace.render(0, 40)});
+    let wit = || json!({"delta_ms": delta, "two_interfaces": two_if, "flusher_on_other_interface": other_if, "aaaa_record_cached_too": other_family, "trace": w.trace.render(0, 40)});
     let first_removed = removed.iter().find(|(_, ip)| *ip == first).map(|(t, _)| *t);
     l.act("L3");
     // older than one second and on the same interface: ends one second after the flush
@@ -170,6 +177,9 @@ pub fn l3_case(delta: u64, seed: u64, l: &mut Local) {
             )
             .with(wit()),
         );
+    }
+    if other_family && removed.iter().any(|(_, r)| *r == IpAddr::from(v6addr)) {
+        l.violate(Violation::new("L3", "L3/record-of-another-type-flushed", format!("a cache-flush A record ended the AAAA record of the same host ({delta} ms old)")).with(wit()));
     }
     // the flushing record itself and its burst companions stay
     for ip in [[10, 0, 0, 62], [10, 0, 0, 63]] {
